@@ -27,6 +27,7 @@ def rule_order(ck: Check, repo: Repo) -> None:
     an = repo.qualname_of(repo.commands()["annotate"])
     reach = cg.reachable([MAIN, an])
     ck.extra["reachable_functions"] = len(reach)
+    ck.extra.setdefault("hygiene_scope", []).extend(sorted(reach))
     if len(reach) < 60:
         raise AnalysisError(f"reach set of annotate too small: {len(reach)}")
     sinks = ot.sinks(sorted(reach))
@@ -228,18 +229,20 @@ class _NormalForm:
             for c in ast.iter_child_nodes(n):
                 c._nf_parent = n  # type: ignore[attr-defined]
         worst = "norm"
-        rank = {"norm": 0, "unknown": 1, "raw": 2}
+        rank = {"norm": 0, "unknown": 1, "raw": 2, "altered": 3}
         for n in ast.walk(elt):
             if not (isinstance(n, ast.Name) and n.id == var and isinstance(n.ctx, ast.Load)):
                 continue
             st = "raw"
             par = getattr(n, "_nf_parent", None)
-            if isinstance(par, ast.Attribute) and par.attr in ("strip", "split"):
+            if isinstance(par, ast.Attribute) and par.attr == "strip":
                 call = getattr(par, "_nf_parent", None)
                 if isinstance(call, ast.Call) and call.func is par and not call.args and not call.keywords:
                     st = "norm"
                 elif isinstance(call, ast.Call):
                     st = "unknown"
+            elif isinstance(par, ast.Attribute) and par.attr in ("split", "replace", "lower", "upper", "casefold", "title", "translate", "expandtabs"):
+                st = "altered"      # rewrites the INSIDE of the text as well: the notice read back is not the one requested
             elif isinstance(par, ast.Attribute):
                 st = "unknown"      # some other method of the string
             elif isinstance(par, ast.keyword):
@@ -277,7 +280,7 @@ class _NormalForm:
                                               if any(isinstance(m, ast.Name) and m.id == p for m in ast.walk(x))):
                 break
         worst = "norm"
-        rank = {"norm": 0, "unknown": 1, "raw": 2}
+        rank = {"norm": 0, "unknown": 1, "raw": 2, "altered": 3}
         rets = [n for n in ast.walk(g) if isinstance(n, ast.Return) and n.value is not None]
         if not rets:
             return "unknown"
@@ -310,8 +313,8 @@ class _NormalForm:
             st = self.elem(fn, expr.elt, gen.target.id)
             if st == "norm":
                 return "norm", ast.unparse(expr.elt)
-            if st == "unknown":
-                return "unknown", ast.unparse(expr.elt)
+            if st in ("unknown", "altered"):
+                return st, ast.unparse(expr.elt)
             return inner, via
         if isinstance(expr, ast.BinOp) and isinstance(expr.op, ast.BitOr):
             a, b = self.coll(fn, expr.left, depth), self.coll(fn, expr.right, depth)
@@ -369,6 +372,11 @@ def rule_normal_form(ck: Check, repo: Repo, rid: str = "R9") -> None:
                         f"`annotate --{'copyright' if field.startswith('copy') else 'contributor'} \"Jane \"` twice: the first run writes the value with its trailing blank, the"
                         " second run reads it back without and adds the requested line a second time (the file changes on every"
                         " identical re-run until both spellings are in it)", repo.loc(calls[0]))
+        elif status == "altered":
+            r.violation(where, f"{field}: the requested text is rewritten, not just trimmed ({via})",
+                        "only surrounding blanks may be removed: `\u5c71\u7530\u3000\u592a\u90ce` (ideographic space), a tab or two blanks inside"
+                        " a holder are changed, the notice read back is not the one requested and --merge-copyrights keeps two lines for"
+                        " one holder", repo.loc(calls[0]))
         elif status == "unknown":
             raise AnalysisError(f"get_reuse_info: flow of {field} passes a call this rule does not model ({via})")
 
